@@ -12,7 +12,7 @@ import z3
 
 from . import extract
 from . import state as st
-from .contracts import (Arr, ArrView, Bool, Contract, Ctx, Flt, Int, Loop, RecView, Sort, Tup, ListOf, Rec, labelled,
+from .contracts import (LemmaInstance, Arr, ArrView, Bool, Contract, Ctx, Flt, Int, Loop, RecView, Sort, Tup, ListOf, Rec, labelled,
                         make_symbolic, wrap)
 from .values import (FIN, NAN, NINF, NONE, PINF, Mode, SArr, SBool, SFloat, SFunc, SInt, SList, SNone,
                      SRecord, SStr, STuple, Unsupported, And, Implies, Ite, Not, Or, drain_side_constraints,
@@ -67,6 +67,19 @@ class Frame:
                 number(ch)
         number(fn)
         self.n_loops = k
+        # the same numbering for `if` statements (ghost assertions on a branch: Contract.branches)
+        self.if_index = {}
+        ki = 0
+
+        def number_ifs(n):
+            nonlocal ki
+            for ch in ast.iter_child_nodes(n):
+                if isinstance(ch, ast.If):
+                    self.if_index[id(ch)] = ki
+                    ki += 1
+                number_ifs(ch)
+        number_ifs(fn)
+        self.used_ifs = set()
         self.entry_vals = None
         self.entry_heap = None
         self.entry_lists = None
@@ -215,6 +228,9 @@ class Engine:
         for key in contract.loops:
             if key not in fr.used_loops:
                 raise Unsupported(f"{contract.target}: loop spec {key} does not match any loop in the source")
+        for key in contract.branches:
+            if key not in fr.used_ifs:
+                raise Unsupported(f"{contract.target}: branch spec {key} does not match any reachable `if` in the source")
         return fr
 
     def post_ctx(self, fr, s):
@@ -226,9 +242,20 @@ class Engine:
         ctx = self.post_ctx(fr, s)
         pathno = next(fr.path_counter)
         r = wrap(result, ctx.post._sink) if result is not None else None
+        if c.post_hints is not None:
+            for item in c.post_hints(ctx, r):
+                using = item[2] if len(item) > 2 else None
+                hlabel = item[0]
+                if isinstance(item[1], LemmaInstance):
+                    # an instance of a lemma proved on its own (its obligations are part of the same run)
+                    s.assume_named('lemma:' + hlabel, to_bool(item[1].clause))
+                    continue
+                hclause = to_bool(item[1])
+                self.oblige(fr, s, 'hint', hlabel, hclause, lineno, using=using)
+                s.assume_named('hint:' + hlabel, hclause)
         ens = labelled(c.ensures(ctx, r) if c.ensures else None, 'ensures')
         for label, b in ens:
-            self.oblige(fr, s, 'post', label, b, lineno)
+            self.oblige(fr, s, 'post', label, b, lineno, using=(c.post_using or {}).get(label))
         if c.raises:
             for exc, cond in c.raises(fr.entry_ctx):
                 self.oblige(fr, s, 'post', f'no-{exc}', Not(cond), lineno)
@@ -383,6 +410,13 @@ class Engine:
         s2 = s.clone()
         s2.guards = list(s.guards)
         s2.assume(~c)
+        bh = fr.contract.branches.get(fr.if_index.get(id(node)))
+        if bh is not None:
+            fr.used_ifs.add(fr.if_index[id(node)])
+            for st_, fn_ in ((s1, bh.get('then')), (s2, bh.get('orelse'))):
+                if fn_ is not None:
+                    self.ghost_steps(fr, st_, fn_(Ctx(dict(st_.env), st_.heap, st_.lists, a=fr.entry_ctx, config=fr.config)),
+                                     node.lineno)
         o1 = self.exec_block(node.body, s1, fr)
         o2 = self.exec_block(node.orelse, s2, fr)
         o1 = [o for o in o1 if not o[1].dead]
@@ -393,6 +427,18 @@ class Engine:
             except Unsupported:
                 pass
         return o1 + o2
+
+    def ghost_steps(self, fr, s, items, lineno):
+        """ghost assertions: each is proved where it stands (or is an instance of a separately proved lemma) and is
+        then available to what follows on that path"""
+        for item in items:
+            using = item[2] if len(item) > 2 else None
+            if isinstance(item[1], LemmaInstance):
+                s.assume_named('lemma:' + item[0], to_bool(item[1].clause))
+                continue
+            hlabel, hclause = item[0], to_bool(item[1])
+            self.oblige(fr, s, 'hint', hlabel, hclause, lineno, using=using)
+            s.assume_named('hint:' + hlabel, hclause)
 
     def merge_states(self, c, a, b, parent, base_len):
         m = st.State()
@@ -612,6 +658,9 @@ class Engine:
                 if pn in callee.modifies:
                     if isinstance(a, ast.Name) and a.id in s.env:
                         self._note_written(s.env[a.id], bases, lids, s)
+                    elif isinstance(a, ast.Name):
+                        # a local that does not exist at the loop head: created inside the body
+                        names.add(a.id)
                     else:
                         try:
                             tmp = s.clone()
@@ -736,11 +785,24 @@ class Engine:
                     hctx = self.loop_ctx(fr, o[1], entry, {tname: i}, iter0=iter0)
                     for item in spec.hints(hctx):
                         using = item[2] if len(item) > 2 else None
+                        if isinstance(item[1], LemmaInstance):
+                            o[1].assume_named('lemma:' + item[0], to_bool(item[1].clause))
+                            continue
                         hlabel, hclause = item[0], to_bool(item[1])
                         self.oblige(fr, o[1], 'hint', hlabel, hclause, node.lineno, using=using)
                         o[1].assume_named('hint:' + hlabel, hclause)
                 self.check_inv(fr, o[1], spec, entry, {tname: i + step}, 'inv-keep', node.lineno)
             elif o[0] == 'break':
+                if spec.break_hints is not None:
+                    hctx = self.loop_ctx(fr, o[1], entry, {tname: i}, iter0=iter0)
+                    for item in spec.break_hints(hctx):
+                        using = item[2] if len(item) > 2 else None
+                        if isinstance(item[1], LemmaInstance):
+                            o[1].assume_named('lemma:' + item[0], to_bool(item[1].clause))
+                            continue
+                        hlabel, hclause = item[0], to_bool(item[1])
+                        self.oblige(fr, o[1], 'hint', hlabel, hclause, node.lineno, using=using)
+                        o[1].assume_named('hint:' + hlabel, hclause)
                 outs.append(('next', o[1], None))
             else:
                 outs.append(o)
